@@ -6,6 +6,7 @@
 #include <strings.h>
 #include <idn2.h>
 #undef idna_to_ascii_lz
+#undef idna_to_ascii_8z
 #undef idna_strerror
 
 long verif_resconf_created, verif_resconf_destroyed, verif_resconf_live, verif_resconf_bad_destroy;
@@ -24,6 +25,7 @@ int idna_to_ascii_lz (const char *input, char **output, int flags)
     }
     return rc;
 }
+int idna_to_ascii_8z (const char *input, char **output, int flags) { return idna_to_ascii_lz (input, output, flags); }
 const char *idna_strerror (int rc) { return idn2_strerror (rc); }
 
 int idn_resconf_initialize (void) { return 0; }
